@@ -30,6 +30,7 @@ import (
 	v1 "github.com/fatedier/frp/pkg/config/v1"
 	"github.com/fatedier/frp/pkg/msg"
 	"github.com/fatedier/frp/pkg/transport"
+	"github.com/fatedier/frp/pkg/util/verifhook"
 	"github.com/fatedier/frp/pkg/util/xlog"
 	"github.com/fatedier/frp/pkg/vnet"
 )
@@ -139,6 +140,7 @@ func (pw *Wrapper) SetRunningStatus(remoteAddr string, respErr string) error {
 
 	pw.RemoteAddr = remoteAddr
 	if respErr != "" {
+		verifhook.At("client.wrapper.phase", pw.Name, pw.Phase, ProxyPhaseStartErr, pw)
 		pw.Phase = ProxyPhaseStartErr
 		pw.Err = respErr
 		pw.lastStartErr = time.Now()
@@ -147,12 +149,14 @@ func (pw *Wrapper) SetRunningStatus(remoteAddr string, respErr string) error {
 
 	if err := pw.pxy.Run(); err != nil {
 		pw.close()
+		verifhook.At("client.wrapper.phase", pw.Name, pw.Phase, ProxyPhaseStartErr, pw)
 		pw.Phase = ProxyPhaseStartErr
 		pw.Err = err.Error()
 		pw.lastStartErr = time.Now()
 		return err
 	}
 
+	verifhook.At("client.wrapper.phase", pw.Name, pw.Phase, ProxyPhaseRunning, pw)
 	pw.Phase = ProxyPhaseRunning
 	pw.Err = ""
 	return nil
@@ -174,6 +178,7 @@ func (pw *Wrapper) Stop() {
 	if pw.monitor != nil {
 		pw.monitor.Stop()
 	}
+	verifhook.At("client.wrapper.phase", pw.Name, pw.Phase, ProxyPhaseClosed, pw)
 	pw.Phase = ProxyPhaseClosed
 	pw.close()
 }
@@ -203,6 +208,7 @@ func (pw *Wrapper) checkWorker() {
 				(pw.Phase == ProxyPhaseStartErr && now.After(pw.lastStartErr.Add(startErrTimeout))) {
 
 				xl.Tracef("change status from [%s] to [%s]", pw.Phase, ProxyPhaseWaitStart)
+				verifhook.At("client.wrapper.phase", pw.Name, pw.Phase, ProxyPhaseWaitStart, pw)
 				pw.Phase = ProxyPhaseWaitStart
 
 				var newProxyMsg msg.NewProxy
@@ -218,6 +224,7 @@ func (pw *Wrapper) checkWorker() {
 			if pw.Phase == ProxyPhaseRunning || pw.Phase == ProxyPhaseWaitStart {
 				pw.close()
 				xl.Tracef("change status from [%s] to [%s]", pw.Phase, ProxyPhaseCheckFailed)
+				verifhook.At("client.wrapper.phase", pw.Name, pw.Phase, ProxyPhaseCheckFailed, pw)
 				pw.Phase = ProxyPhaseCheckFailed
 			}
 			pw.mu.Unlock()
